@@ -2,6 +2,7 @@ package main
 
 import (
 	"verif/engines/chunk"
+	"verif/engines/fault"
 	"verif/engines/hostile"
 	"verif/engines/pull"
 	"verif/simkit"
@@ -54,5 +55,14 @@ func init() {
 			"stub": {"io.Reader (simkit.Reader)", "downstream visitor (counting sink)"}},
 		Assumptions: []string{"allocation is measured as the delta of /gc/heap/allocs:bytes around the call with bound 1 MiB + 64*len(input): small-object counts are flushed per span, so only allocations out of proportion are visible",
 			"termination backstop: 15 s in-process watchdog per run; events bounded by 8*len+16", "JSON top-level numbers are excluded from the truncation check (a prefix of a number is a number)"},
+	}
+	registry["C16"] = &propCfg{
+		Engine: fault.Engine{}, EngineName: "fault", Level: "fault_enumeration",
+		QuickRuns: 20000, ThoroughRuns: 2000000, QuickCapS: 60, ThoroughCapS: 900,
+		Rule: "one run = one generated event stream / document / Go value and a dry run counting W writes (sink side: json with options, ubjson, cborl encoders incl. extended events) or W visitor events (producer side: three parsers via Parse/ParseString/Write*/ParseReader/Decoder.Next under seeded chunking, gotype.Fold and Iterator.Fold over the type catalogue, EnsureExtVisitor adapters); then the failure is injected at EVERY index k<W (61 sampled + first/last if W>64); evaluations = injected executions; each is non-trivial (the fault fired) and distinct by (scenario, k)",
+		Components: map[string][]string{
+			"real": {"json/ubjson/cborl Visitor (encoders)", "json/ubjson/cborl Parser and Decoder", "gotype.Fold / Iterator", "EnsureExtVisitor adapters (array.go, map.go, string.go)"},
+			"stub": {"io.Writer (simkit.Writer, fails permanently from write k)", "downstream visitor (simkit.Tap returning a unique error at event k)", "io.Reader (simkit.Reader)"}},
+		Assumptions: []string{"callers stop at the first error, as the io.Writer and Visitor contracts prescribe", "maps passed through extended events have at most one entry (iteration order has no seam)"},
 	}
 }
